@@ -1,0 +1,111 @@
+//! Verification hooks (cargo feature `verif`, off by default).
+//!
+//! Nothing in here changes what the channel does; it only lets an external
+//! harness observe (hit counters), perturb timing (an installable callback
+//! that is invoked at named points *between* synchronisation actions), and
+//! annotate acquire fences for tools that do not model them.
+#![allow(missing_docs)]
+use core::sync::atomic::{AtomicPtr, AtomicU64, Ordering};
+
+pub const SEND_ENTER: u32 = 0;
+pub const RECV_ENTER: u32 = 1;
+pub const TERM_ENTER: u32 = 2;
+pub const WAKE_SYNC_BEFORE_CAS: u32 = 3;
+pub const WAKE_SYNC_STARVED: u32 = 4;
+pub const WAKE_SYNC_BEFORE_UNPARK: u32 = 5;
+pub const WAKE_ASYNC_CLONED: u32 = 6;
+pub const WAKE_ASYNC_BEFORE_WAKE: u32 = 7;
+pub const WAIT_BEFORE_STARVE_CAS: u32 = 8;
+pub const WAIT_BEFORE_PARK: u32 = 9;
+pub const WAIT_AFTER_PARK: u32 = 10;
+pub const WAIT_TIMEOUT_EXPIRED: u32 = 11;
+pub const ABW_ENTER: u32 = 12;
+pub const WILL_WAKE: u32 = 13;
+pub const REGISTER_WAKER: u32 = 14;
+pub const WAIT_ENTER: u32 = 15;
+pub const WAIT_TIMEOUT_ENTER: u32 = 16;
+pub const WAKE_DONE: u32 = 17;
+pub const SEND_WRITTEN: u32 = 18;
+pub const RECV_READ: u32 = 19;
+pub const N_POINTS: usize = 20;
+
+pub const POINT_NAMES: [&str; N_POINTS] = [
+    "SEND_ENTER",
+    "RECV_ENTER",
+    "TERM_ENTER",
+    "WAKE_SYNC_BEFORE_CAS",
+    "WAKE_SYNC_STARVED",
+    "WAKE_SYNC_BEFORE_UNPARK",
+    "WAKE_ASYNC_CLONED",
+    "WAKE_ASYNC_BEFORE_WAKE",
+    "WAIT_BEFORE_STARVE_CAS",
+    "WAIT_BEFORE_PARK",
+    "WAIT_AFTER_PARK",
+    "WAIT_TIMEOUT_EXPIRED",
+    "ABW_ENTER",
+    "WILL_WAKE",
+    "REGISTER_WAKER",
+    "WAIT_ENTER",
+    "WAIT_TIMEOUT_ENTER",
+    "WAKE_DONE",
+    "SEND_WRITTEN",
+    "RECV_READ",
+];
+
+#[allow(clippy::declare_interior_mutable_const)]
+const ZERO: AtomicU64 = AtomicU64::new(0);
+/// Number of times each point was passed (coverage evidence only).
+pub static HITS: [AtomicU64; N_POINTS] = [ZERO; N_POINTS];
+
+static POINT_HOOK: AtomicPtr<()> = AtomicPtr::new(core::ptr::null_mut());
+static FENCE_HOOK: AtomicPtr<()> = AtomicPtr::new(core::ptr::null_mut());
+
+/// Installs (or removes) the callback invoked at every point.
+pub fn set_point_hook(f: Option<fn(u32)>) {
+    POINT_HOOK.store(
+        f.map_or(core::ptr::null_mut(), |f| f as *mut ()),
+        Ordering::Relaxed,
+    );
+}
+
+/// Installs (or removes) the callback invoked after every
+/// `load(Relaxed); fence(Acquire)` pair with the address of the atomic.
+pub fn set_fence_hook(f: Option<fn(*const u8)>) {
+    FENCE_HOOK.store(
+        f.map_or(core::ptr::null_mut(), |f| f as *mut ()),
+        Ordering::Relaxed,
+    );
+}
+
+#[inline]
+pub fn point(id: u32) {
+    HITS[id as usize].fetch_add(1, Ordering::Relaxed);
+    let p = POINT_HOOK.load(Ordering::Relaxed);
+    if !p.is_null() {
+        // Safety: only `fn(u32)` values are ever stored
+        let f: fn(u32) = unsafe { core::mem::transmute(p) };
+        f(id);
+    }
+}
+
+#[inline]
+pub fn after_acquire_fence(addr: *const u8) {
+    let p = FENCE_HOOK.load(Ordering::Relaxed);
+    if !p.is_null() {
+        // Safety: only `fn(*const u8)` values are ever stored
+        let f: fn(*const u8) = unsafe { core::mem::transmute(p) };
+        f(addr);
+    }
+}
+
+pub fn hits() -> [u64; N_POINTS] {
+    let mut r = [0u64; N_POINTS];
+    for (i, h) in HITS.iter().enumerate() {
+        r[i] = h.load(Ordering::Relaxed);
+    }
+    r
+}
+
+pub use crate::backoff::get_parallelism;
+#[cfg(not(feature = "std-mutex"))]
+pub use crate::mutex::{Mutex, RawMutexLock};
